@@ -7,9 +7,11 @@ REGISTRY = {}      # relpath -> CFile
 
 
 class Loop:
-    def __init__(self, n, var=None, invariant=(), variant=None, unroll=None, assigns=None):
+    def __init__(self, n, var=None, invariant=(), variant=None, unroll=None, assigns=None, hints=(), assume=()):
         self.n = n; self.var = var; self.invariant = list(invariant); self.variant = variant
         self.unroll = unroll; self.assigns = assigns
+        self.hints = list(hints)      # intermediate assertions at the end of the body: proved, then assumed
+        self.assume = list(assume)    # [(lemma name, expression)]: instances of EXTERNAL lemmas (Lean), assumed at the loop head, listed as trusted
 
 
 class Ghost:
@@ -17,13 +19,14 @@ class Ghost:
     def __init__(self, sig, sort, body, decreases, lemmas=()):
         m = re.match(r'\s*(\w+)\s*\(([^)]*)\)\s*$', sig)
         self.name = m.group(1); self.params = [p.strip() for p in m.group(2).split(',') if p.strip()]
-        self.sort = sort; self.body = body; self.decreases = decreases
+        self.sort = sort; self.body = body; self.decreases = decreases; self.concrete = None
 
 
 class Lemma:
-    def __init__(self, name, stmt, var=None, lo=None, fixed=(), pre='True', trigger=None, hints=()):
+    def __init__(self, name, stmt, var=None, lo=None, fixed=(), pre='True', trigger=None, hints=(), instance=None):
         self.name = name; self.stmt = stmt; self.var = var; self.lo = lo
         self.fixed = list(fixed); self.pre = pre; self.trigger = trigger; self.hints = list(hints)
+        self.instance = instance      # expression substituted for the induction variable in the assumed form
 
 
 class Kernel:
@@ -55,8 +58,9 @@ class Kernel:
     def loop(self, n, **kw):
         self.loops[n] = Loop(n, **kw); return self
 
-    def ghost(self, sig, sort, body, decreases):
-        self.ghosts.append(Ghost(sig, sort, body, decreases)); return self
+    def ghost(self, sig, sort, body, decreases=None, concrete=None):
+        g = Ghost(sig, sort, body, decreases); g.concrete = concrete
+        self.ghosts.append(g); return self
 
     def lemma(self, name, stmt, **kw):
         self.lemmas.append(Lemma(name, stmt, **kw)); return self
@@ -70,7 +74,7 @@ class Kernel:
 
 class CFile:
     def __init__(self, relpath):
-        self.relpath = relpath; self.kernels = {}; self.specs = {}
+        self.relpath = relpath; self.kernels = {}; self.specs = {}; self.lemmas = []
 
     def kernel(self, name):
         k = Kernel(self, name); self.kernels[name] = k; return k
@@ -78,6 +82,12 @@ class CFile:
     def spec(self, sig, body):
         m = re.match(r'\s*(\w+)\s*\(([^)]*)\)\s*$', sig)
         self.specs[m.group(1)] = ([p.strip() for p in m.group(2).split(',') if p.strip()], body)
+        return self
+
+    def lemma(self, name, decl, stmt, pre='True', props=()):
+        """file-level lemma about spec functions only (no code): proved as a standalone VC.
+        decl: 'x:real, c:int, ...'"""
+        self.lemmas.append(dict(name=name, decl=[tuple(d.strip().split(':')) for d in decl.split(',')], stmt=stmt, pre=pre, props=set(props)))
         return self
 
     def use(self, other):
